@@ -254,6 +254,30 @@ claim("C16",
   "override_module_collision (a class_overrides module_name equal to another class's module is not diagnosed; two classes share one file) - classified by the Coq guard rename_injective_on.",
   "Coq proof (table reflection for the frame; induction for the tag selection; case analysis for the option lemmas) + in-Coq differential correspondence + metamorphic tree/wire comparison", "4/C16")
 
+claim("C18",
+  "Coq theorems (props/C18.v, all closed under the global context). (1) On coq/Rename.v, a statement IR for the bodies of the generated functions (assignment, attribute read, dict pop / lookup by a CONSTANT wire key, "
+  "call of an uninterpreted function on values, isinstance, if, for with append / item assignment, try/except, raise, return; big-step evaluator over one flat environment, values and operations abstract): "
+  "rename_invariant (for EVERY value domain, program and environment, an injective renaming rho of the document-derived variables D that leaves the template variables T alone and maps no variable of D into T "
+  "does not change what the function returns / raises; proved by induction on statements and loop items, expressions thread the environment because pop updates its dict variable), rename_invariant_inj, "
+  "capture_free_names (instantiated with the REGENERATED table gen/GenNames.v: renaming a document-derived variable to any name outside the identifiers the generated code of that scope uses is behaviour-preserving), "
+  "capture_refuted (concrete witness shaped like from_dict: d = dict(src); x = d.pop(k); addl = d - renaming x to d changes the result: the full statement is false). "
+  "(2) On the proved endpoint model: kwargs_rename_invariant (renaming the python names of ALL parameters of Endpoint.get_kwargs, the argument list and the {py} placeholders of the path by a renaming injective on the names "
+  "involved and fixing `body` leaves the request unchanged - the model depends on wire names only; Codec.v never mentions python names at all). (3) python_identifier_avoids: for every candidate of the regenerated table that is a "
+  "Python keyword or a word of utils.RESERVED_WORDS, python_identifier c differs from c (vm_compute reflection + soundness lemma). "
+  "Search: EXHAUSTIVE over the finite regenerated candidate set (translate/gen_names.py: every identifier - names, arguments, attributes, keyword-argument names, imports - of every module of a probe client generated by the tree "
+  "under verification, per scope, ast cross-checked with symtable; all keywords, soft keywords, builtins, case variants; ~450 names) x {model property required/optional of 4 kinds, typed/untyped additionalProperties, multipart body "
+  "model property, parameter in path/query/header/cookie without and with a JSON body, raw-name pair (the only way an upper-case identifier becomes a python name)}. Every (candidate, placement) class / operation is generated by the real "
+  "generator, compiled, imported and executed in a fresh interpreter; stage B = the existing correspondences codec_case / kw_case; because the models are capture-free, a mismatch whose neutral control (same placement, name zq_neutral, "
+  "same document) matches IS a capture; stage C compares decoded attributes, re-encoded dict, to_multipart, _get_kwargs, the request captured for sync_detailed / asyncio_detailed / sync and the parsed response with the control and with the "
+  "document. 24 captures of the unchanged tree are listed findings capture_<scope>_<name> (d, cls, field_dict, prop, prop_name, additional_properties, additional_keys, to_dict, from_dict, to_multipart, json, cast, isoparse, "
+  "params, headers, cookies, body, sync_detailed, and through the raw-name fallback UNSET, Unset, Union, Mapping); any other (scope, name), or a listed one in a new placement, is a VIOLATION. A template edit that introduces a new "
+  "local automatically adds a candidate.",
+  "Full on the IR and on the models; exhaustive over the finite regenerated candidate set (thorough tier: all names x all placements; quick tier: every function-scope identifier that can become a python name, verbatim or through the "
+  "raw fallback, every reserved identifier the functions use, every listed name, a sample of the rest). Trusted: that the generated function bodies are instances of the IR and that Python's function scope is the IR's single flat scope "
+  "(closures and comprehensions only read the enclosing scope); that the probe document of gen_names.py reaches every template branch that introduces a name (required scopes are checked); abstraction absprop.py / epwork.py; "
+  "client_runner.py. Collisions between two document-derived names (x_item next to a list x; derived prefix/suffix patterns are listed in the evidence) are outside C18 (C09).",
+  "Coq proof (alpha-renaming by induction over a statement IR; reflection on a regenerated table) + exhaustive differential execution of generated code against proved models and a neutral control", "4/C18")
+
 claim("C20",
   "Proved in Coq (27 theorems in props/C20.v, all closed under the global context) about coq/Refs.v, an executable model of the parser's reference resolvers: (a) parse_reference_path (urlsplit's cleaning, scheme / authority / "
   "fragment / query / params splitting over character tables regenerated from the running interpreter) and get_reference_simple_name: simple_name_last_segment, parse_ref_local ('#'+fragment is accepted and yields the fragment); "
